@@ -2,6 +2,7 @@ package internal
 
 import (
 	"strings"
+	"sync"
 
 	"github.com/zeromicro/go-zero/core/discov"
 	"github.com/zeromicro/go-zero/core/logx"
@@ -21,7 +22,14 @@ func (b *discovBuilder) Build(target resolver.Target, cc resolver.ClientConn, _ 
 		return nil, err
 	}
 
+	// update runs on several goroutines (the builder, the watch goroutine, a reload);
+	// reading the values and publishing them must not interleave, otherwise an
+	// overtaken update publishes an older state after a newer one
+	var lock sync.Mutex
 	update := func() {
+		lock.Lock()
+		defer lock.Unlock()
+
 		vals := subset(sub.Values(), subsetSize)
 		addrs := make([]resolver.Address, 0, len(vals))
 		for _, val := range vals {
